@@ -184,7 +184,8 @@ pub fn helper_elem_text(kind: &str, i: usize) -> String {
   match kind { "string" => format!("\"w{}\"", 91 + i), "bool" => format!("{}", i % 2 == 0), "f64" | "f32" => format!("{}.0", 91 + i), _ => vec_elem(i) }
 }
 
-pub enum RefOut { MustError(&'static str), Unjudged(&'static str), Ok(Mat, Vec<usize>) }
+pub enum RefOut { MustError(&'static str), Unjudged(&'static str), Ok(Mat, Vec<usize>), /// a valid target that addresses nothing: accepted or rejected, x stays as it is
+  Unchanged }
 
 /// reference store: apply one statement to the matrix
 pub fn reference(m: &Mat, st: &Stmt) -> RefOut {
@@ -204,7 +205,7 @@ pub fn reference(m: &Mat, st: &Stmt) -> RefOut {
     },
   };
   if st.src == Src::WrongKind { return RefOut::MustError("wrong-kind-source"); }
-  if pos.is_empty() { return RefOut::Unjudged("empty-selection"); }
+  if pos.is_empty() { return RefOut::Unchanged; }
   let mut seen = BTreeSet::new();
   if !pos.iter().all(|p| seen.insert(*p)) { return RefOut::Unjudged("repeated-index"); }
   let srcs: Vec<String> = match st.src {
@@ -290,6 +291,11 @@ fn transition(s: &mut Session, p: &Payload, st: &Stmt, pre: &Mat, out: &mut Work
   match (&rf, &o) {
     (_, Outcome::Panic(m)) => { out.fail(format!("C04|panic|{}", locus), case.clone(), m.clone()); }
     (RefOut::Unjudged(why), _) => { out.count(&format!("unjudged:{}", why)); }
+    (RefOut::Unchanged, _) => {
+      out.nontrivial += 1;
+      out.count("addresses_nothing");
+      if &post != pre { out.fail(format!("C04|empty-target-modified|{}", locus), case.clone(), format!("the target addresses no element, x is now {}", post.short())); }
+    }
     (RefOut::MustError(why), Outcome::Value(_)) => {
       out.nontrivial += 1;
       out.fail(format!("C04|bad-target-accepted|{}", locus), case.clone(), format!("{}: must be rejected, x is now {}", why, post.short()));
